@@ -11353,3 +11353,80 @@ func ruleCountersNeverDecrease(r *Run) {
 	}
 	r.check(n >= 3, "datastore:counter-stores", fmt.Sprintf("%d", n), "too few found: rule needs review", "-")
 }
+
+// ---------------------------------------------------------------------------------------------
+// R4.19 — a new repo's blob is saved only behind the persisted id→uuid map; R2.18 — DeleteAll is for instance deletion
+
+func init() {
+	register(ruleDef{ID: "R4.19", Prop: "C04", Tier: "quick", Floor: 1,
+		Title: "a new repo's blob is saved only behind its entry in the persisted id→uuid map: in repoManager.newRepo every save of the repo is preceded, on every path, by the entry into repoToUUID and a putCaches behind that entry (R4.3 guards the interval after the entry; this rule guards a save placed in front of it — the loader prunes a map entry without a blob but refuses a blob without a map entry)",
+		Fn:    ruleNewRepoSavedBehindMap})
+	register(ruleDef{ID: "R2.18", Prop: "C02", Tier: "quick", Floor: 1,
+		Title: "no request handler erases every version of an instance's keys: the storage engines' DeleteAll — which removes the keys of all versions, committed ones included — is called from the instance-deletion path of package storage/datastore only, never from a datatype package",
+		Fn:    ruleDeleteAllOnlyForInstanceDeletion})
+}
+
+func ruleNewRepoSavedBehindMap(r *Run) {
+	w := r.W
+	f := w.method("datastore", "repoManager", "newRepo")
+	putCaches := w.method("datastore", "repoManager", "putCaches")
+	save := w.method("datastore", "repoT", "save")
+	if f == nil || putCaches == nil || save == nil || len(f.Blocks) == 0 {
+		r.undecided("datastore.repoManager.newRepo", "anchor not found")
+		return
+	}
+	var mus, pcs, saves []ssa.Instruction
+	for _, b := range f.Blocks {
+		for _, in := range b.Instrs {
+			if isMapUpdateOnField(in, "repoManager", "repoToUUID") {
+				mus = append(mus, in)
+			}
+			if c, ok := in.(ssa.CallInstruction); ok {
+				switch c.Common().StaticCallee() {
+				case putCaches:
+					pcs = append(pcs, in)
+				case save:
+					saves = append(saves, in)
+				}
+			}
+		}
+	}
+	n := 0
+	for _, s := range saves {
+		n++
+		ok := false
+		for _, mu := range mus {
+			for _, pc := range pcs {
+				if domInstr(mu, pc) && domInstr(pc, s) {
+					ok = true
+				}
+			}
+		}
+		r.check(ok, fmt.Sprintf("newRepo:save#%d:behind-the-persisted-map-entry", n), "the save lies behind the repoToUUID entry and a putCaches that follows it",
+			"the new repo's blob is saved before its id is entered into repoToUUID and the map persisted: a crash between the two writes leaves a blob the loader refuses (\"retrieved repo with id … that is not in map\"), and every later start fails", w.pos(s.Pos()))
+	}
+	r.check(n >= 1 && len(mus) >= 1, "newRepo:saves", fmt.Sprintf("%d saves, %d map entries", n, len(mus)), "anchor not found: rule needs review", w.fpos(f))
+}
+
+func ruleDeleteAllOnlyForInstanceDeletion(r *Run) {
+	w := r.W
+	n, bad := 0, 0
+	for _, f := range w.RepoFuncs {
+		if len(f.Blocks) == 0 || isTestFunc(w, f) {
+			continue
+		}
+		p := relPkg(pkgPathOf(f))
+		for _, c := range calls(f) {
+			if methodNameOf(c) != "DeleteAll" || !c.Common().IsInvoke() {
+				continue
+			}
+			n++
+			if strings.HasPrefix(p, "datatype/") || p == "server" {
+				bad++
+				r.violation(fmt.Sprintf("%s:DeleteAll", fname(f)),
+					"a datatype's request path calls the store's DeleteAll: it removes the instance's keys at every version — a delete or replace issued in an open child erases what the committed ancestors hold", w.pos(c.Pos()))
+			}
+		}
+	}
+	r.check(n >= 1, "repo:DeleteAll-callers", fmt.Sprintf("%d callers, %d in datatype or server packages", n, bad), "no caller found: rule needs review", "-")
+}
